@@ -34,7 +34,14 @@ class IkeSaController:
         return next(x for x in self.ike_sas if x.my_spi == spi)
 
     def _get_ike_sa_by_peer_addr(self, peer_addr):
-        return next(x for x in self.ike_sas if x.peer_addr == peer_addr)
+        # only an IKE_SA that can negotiate (now, or once its outstanding exchange is over) is given new work: neither a
+        # half-open responder IKE_SA (its initiator may never come back) nor one that has been replaced or is being deleted
+        closing = (IkeSa.State.DEL_IKE_SA_REQ_SENT, IkeSa.State.DEL_AFTER_REKEY_IKE_SA_REQ_SENT,
+                   IkeSa.State.REKEYED, IkeSa.State.DELETED)
+        usable = [x for x in self.ike_sas if x.peer_addr == peer_addr and x.state not in closing
+                  and (x.is_initiator or x.state >= IkeSa.State.ESTABLISHED)]
+        usable.sort(key=lambda x: x.state != IkeSa.State.ESTABLISHED)
+        return next(iter(usable))
 
     def _get_ike_sa_by_child_sa_spi(self, spi):
         for ike_sa in self.ike_sas:
